@@ -1,7 +1,9 @@
 """Scripted, recording environments (device D1: observations ARE identifiers).
 
 ScriptEnv is a real gymnasium.Env whose episodes follow a script
-[(length, "term" | "trunc"), ...] (cycled).  Observation of step t of episode
+[(length, "term" | "trunc" | "both"), ...] (cycled; "both": the last step of the
+episode returns terminated=True AND truncated=True at once, as gymnasium's
+TimeLimit does when a terminal state is reached on the limit step).  Observation of step t of episode
 ep is the tag [ep, t, env_id]; reward = 16*(ep % 8) + t + 1/4 (exact).  Every
 reset / step / action_space.sample() is reported to a Recorder.  A step taken
 after the episode ended is logged (after_end) instead of raised, so that the
@@ -251,8 +253,8 @@ class ScriptEnv(gym.Env):
         self.t += 1
         self.n_steps += 1
         done = self.t >= length
-        term = bool(done and ending == "term")
-        trunc = bool(done and ending == "trunc")
+        term = bool(done and ending in ("term", "both"))
+        trunc = bool(done and ending in ("trunc", "both"))
         reward = float(16 * (self.ep % 8) + self.t) + 0.25
         if self.reward_scale != 1.0:
             reward = self.reward_scale * reward
